@@ -44,6 +44,9 @@ var (
 	fFnAdd   = c17Fn{"FnOpAdd", gen.TInt, gen.TInt, gen.TInt, ""}
 	fOpStr   = c17Fn{"OpStr", gen.TObj, gen.TObj, gen.TStr, "stringer"}
 	fOpAnyEq = c17Fn{"OpAnyEq", gen.TAny, gen.TAny, gen.TBool, "any"}
+	fOpSubMI = c17Fn{"OpSubMI", gen.TMyInt, gen.TMyInt, gen.TMyStr, ""}
+	fOpAddMS = c17Fn{"OpAddMIS", gen.TMyInt, gen.TMyStr, gen.TMyInt, ""}
+	fOpNotIn = c17Fn{"OpNotIn", gen.TStr, gen.TStr, gen.TBool, ""}
 )
 
 var c17Tables = []c17Table{
@@ -56,11 +59,14 @@ var c17Tables = []c17Table{
 	{"in and and", map[string][]c17Fn{"in": {fOpIn}, "and": {fOpAnd}}},
 	{"stringer interface", map[string][]c17Fn{"+": {fOpStr, fOpAdd}}},
 	{"interface equality", map[string][]c17Fn{"==": {fOpAnyEq}}},
+	{"named numeric chain", map[string][]c17Fn{"-": {fOpSubMI}, "+": {fOpAddMS, fOpAdd}}},
+	{"not in", map[string][]c17Fn{"not in": {fOpNotIn}, "in": {fOpIn}}},
+	{"not in alone", map[string][]c17Fn{"not in": {fOpNotIn}}},
 }
 
 func (t c17Table) options() []expr.Option {
 	var ops []expr.Option
-	for _, op := range []string{"+", "-", "==", "<", "in", "and"} {
+	for _, op := range []string{"+", "-", "==", "<", "in", "not in", "and"} {
 		if fns, ok := t.ops[op]; ok {
 			var names []string
 			for _, f := range fns {
@@ -85,6 +91,7 @@ func c17Grammar() *gen.Grammar {
 		gen.Bin("==", gen.TObj, gen.TObj, T), gen.Bin("<", gen.TObj, gen.TObj, T), gen.Bin("==", gen.TInt, gen.TInt, T), gen.Bin("<", gen.TInt, gen.TInt, T),
 		gen.Bin("in", gen.TStr, gen.TStr, T), gen.Bin("in", gen.TInt, gen.TIntArr, T), gen.Bin("and", gen.TInt, gen.TInt, T), gen.Bin("and", T, T, T),
 		gen.Bin("+", gen.TObj, gen.TObj, gen.TStr),
+		gen.Var("MI", gen.TMyInt), gen.Bin("-", gen.TMyInt, gen.TMyInt, gen.TMyStr), gen.Bin("+", gen.TMyInt, gen.TMyStr, gen.TMyInt), gen.Bin("not in", gen.TStr, gen.TStr, T),
 		gen.Var("X", gen.TAny), gen.Var("Y", gen.TAny), gen.Lit("nil", gen.TNil, nil),
 		// TFunc: a dynamic sum that no other rule consumes (the checker types it optimistically)
 		gen.Bin("+", gen.TAny, gen.TInt, gen.TFunc), gen.Bin("+", gen.TAny, gen.TAny, gen.TFunc),
@@ -234,12 +241,34 @@ func c17Oracle(e *gen.Expr, t c17Table, only string) (out []mismatch, runs int64
 	return
 }
 
+// c17OtherEnv has the overload functions of the harness environment under the same names with other signatures.
+type c17OtherEnv struct {
+	I, J int
+	F, G float64
+	S, T string
+	MI   henv.MyInt
+}
+
+func (c17OtherEnv) OpAdd(a, b float64) float64 { return a - b }
+func (c17OtherEnv) OpAddF(a, b int) int        { return a - b }
+func (c17OtherEnv) OpCat(a, b int) int         { return 0 }
+func (c17OtherEnv) OpAny(a, b string) string   { return "other" }
+func (c17OtherEnv) OpSubS(a, b int) int        { return 9 }
+func (c17OtherEnv) OpSubMI(a, b string) string { return "" }
+func (c17OtherEnv) OpIn(a, b int) bool         { return true }
+func (c17OtherEnv) OpAnyEq(a, b int) bool      { return false }
+
 func init() { checks["C17"] = c17 }
 
 func c17(r *report.Run) {
 	g := c17Grammar()
-	sl := &slice{name: "overload", g: g, tops: []gen.NT{nt(gen.TInt), nt(gen.TStr), nt(gen.TBool), nt(gen.TFloat), nt(gen.TIntArr), nt(gen.TAnyArr), nt(gen.TAnyMap), nt(gen.TStrArr), nt(gen.TAny), nt(gen.TFunc)},
+	sl := &slice{name: "overload", g: g, tops: []gen.NT{nt(gen.TInt), nt(gen.TStr), nt(gen.TBool), nt(gen.TFloat), nt(gen.TIntArr), nt(gen.TAnyArr), nt(gen.TAnyMap), nt(gen.TStrArr), nt(gen.TAny), nt(gen.TFunc), nt(gen.TMyInt), nt(gen.TMyStr)},
 		maxN: map[string]int{"quick": 5, "thorough": 6}}
+	// Process history: the same function names mapped to the same operator were first used with ANOTHER environment
+	// type, where they have other signatures. Overload resolution for the harness environment must not remember that.
+	for _, src := range []string{"I + J", "F + G", "S + T", "I + F", "S - T", "MI - MI", "S in T", "I == J"} {
+		expr.Compile(src, expr.Env(c17OtherEnv{}), expr.Operator("+", "OpAddF", "OpAdd", "OpCat", "OpAny"), expr.Operator("-", "OpSubS", "OpSubMI"), expr.Operator("in", "OpIn"), expr.Operator("==", "OpAnyEq"))
+	}
 	var rewrittenCases int64
 	runSlices(r, []*slice{sl}, func(sl *slice, e *gen.Expr, order int64) (int64, []string) {
 		var runs int64
